@@ -736,6 +736,30 @@ func c05Program(p *prog, steps int) {
 					modelSort(l)
 					l.List().Sort()
 				})
+				if !p.failed && len(l.E) > 0 && r.Chance(1, 2) {
+					// right behind a Sort: one Add of several values that each fit behind the sorted part but are not in order
+					// among themselves, then Sort again
+					last := l.E[len(l.E)-1]
+					var batch []model.Val
+					switch {
+					case last.K == spec.Int && last.I < math.MaxInt-3:
+						batch = []model.Val{model.Int(last.I + 2), model.Int(last.I + 1), last}
+					case last.K == spec.Str:
+						batch = []model.Val{model.Str(last.S + "b"), model.Str(last.S + "a"), last}
+					case last.K == spec.Float && !math.IsInf(last.F, 0) && !math.IsNaN(last.F) && math.Abs(last.F) < 1e15:
+						batch = []model.Val{model.Float(last.F + 2), model.Float(last.F + 1), last}
+					}
+					if batch != nil {
+						c.Count("batches_added_behind_a_sorted_list")
+						c05Add(p, l, batch[:r.Range(2, 3)])
+						if !p.failed {
+							p.step("Sort", l.Name()+".Sort() [again]", false, func() {
+								modelSort(l)
+								l.List().Sort()
+							})
+						}
+					}
+				}
 			} else {
 				c05Observe(p, l)
 			}
